@@ -527,6 +527,10 @@ class BasicContiguousVector<cntgs::Options<Option...>, Parameter...>
     {
         clear();
         memory_ = other.memory_;
+        // the locator allocates and that might throw: until it is in place this is an empty vector without capacity
+        // whose locator refers to the new memory
+        max_element_count_ = 0;
+        locator_->resize(0, memory_begin());
         ElementLocatorAndFixedSizes other_locator{other.locator_, other.memory_begin(),     other.max_element_count_,
                                                   memory_begin(), other.max_element_count_, get_allocator()};
         BasicContiguousVector::insert_into(*other_locator, other.max_element_count_, memory_, other);
